@@ -7,7 +7,7 @@ RULE = ("APIs: apis.conventional extended with a recursive tree (nested, mutuall
         "shared by two RPCs, a nested type of one request named by another request, resource references (type / child_type, "
         "message-level and file-level), a second service and a third file that vanish, LRO and paged RPCs, streaming RPCs; a "
         "compute-style API with an extended-operation polling service (also with a polling chain that loops); an API using its own "
-        "dependency package; the DESIGN 9 no. 4 witness. Configurations: for each API subsets of RPC selectors (singletons, one "
+        "dependency package; the former DESIGN 9 no. 4 counterexample and the internal-polling one (corpus/C16, run first). Configurations: for each API subsets of RPC selectors (singletons, one "
         "whole service, all, all-but-one, half, pairs, LRO/list only) x generate_omitted_as_internal in {false,true}, plus empty "
         "list, unknown method, other-version entry, duplicate version, prefix version, two entries. A case is one (API, settings) "
         "pair at schema level (API.build) or library level (generate + import + drive); distinct = distinct canonical JSON of "
@@ -25,7 +25,7 @@ TRUSTED = [
 ASSUMES = [
     "one target package: the package computed by gapic.cli.generate equals naming.proto_package (checked per case)",
     "addresses are unique per object (wf_tableb evaluated on every derived graph); no proto2 extensions fields",
-    "C16_no_dangling_partial carries wf_table g; C16_allowlist_* quantify over graphs for which the polling chain terminates "
+    "C16_no_dangling carries wf_table g (the model follows types by address, the code by object reference); C16_allowlist_* quantify over graphs for which the polling chain terminates "
     "(roots g sel = Ok rs); a looping chain is modelled as Crashed ERecursion and replayed on the implementation",
 ]
 
@@ -715,20 +715,24 @@ def run(ctx):
     t2 = time.time()
     run_library(ctx, libs)
     ctx.notes["seconds"] = {"inputs": round(t1 - t0, 1), "schema": round(t2 - t1, 1), "library": round(time.time() - t2, 1)}
-    # the witness of C16_no_dangling_refuted, replayed on the model side for the derived graph
+    # the former counterexample (DESIGN 9 no. 4, fixed): on the graph derived from the corpus API the model keeps the
+    # enclosing message, renders the nested types and agrees with Proofs.Selective.wit_g
     wit = apis_[0]
     g = wit.setdefault("graph", U.derive_graph(wit["req"]))
     shared = {}
     defs = U.graph_defs(g, "gw", shared)
-    sel = [{"version": g["package"], "methods": [g["package"] + ".Library.GetThing"], "internal": False}]
-    O = f"(build gw {coq.s(g['package'])} {U.settings_term(sel)})"
+    pk = g["package"]
+    sel = [{"version": pk, "methods": [pk + ".Library.GetThing"], "internal": False}]
+    O = f"(build gw {coq.s(pk)} {U.settings_term(sel)})"
     failing, errors, _ = coq.eval_checks("c16wit", IMPORTS + "\nFrom GV Require Import Proofs.Selective.", U.COQ_DEFS + "\n".join(shared.values()) + "\n" + defs, [
-        ("derived witness graph: the model predicts a dangling reference to Outer.Inner",
-         f"existsb (fun p => String.eqb (snd p) {coq.s(g['package'] + '.Outer.Inner')}) (dangling gw (built {O}))"),
+        ("derived witness graph: no dangling reference in the model's outcome", f"match dangling gw (built {O}) with [] => is_built {O} | _ => false end"),
+        ("derived witness graph: Outer is kept by the closing loop only",
+         f"mem {coq.s(pk + '.Outer')} (allowed (allowlist gw {coq.slist(sel[0]['methods'])})) && negb (mem {coq.s(pk + '.Outer')} (allowed (allowlist0 gw {coq.slist(sel[0]['methods'])})))"),
+        ("derived witness graph: Outer.Inner is rendered", f"mem {coq.s(pk + '.Outer.Inner')} (rendered (built {O}))"),
         ("derived witness graph has the allow-list of Proofs.wit_g",
          f"set_eqb (allowed (allowlist gw {coq.slist(sel[0]['methods'])})) (allowed (allowlist wit_g (flat_map ls_methods wit_l)))"),
     ])
-    ctx.oblige("witness of C16_no_dangling_refuted = the API replayed on the implementation", not failing and not errors, "; ".join(failing + errors))
+    ctx.oblige("example of C16_ex_enclosing_kept = the corpus API run on the implementation", not failing and not errors, "; ".join(failing + errors))
 
 
 def replay(ctx, rep):
